@@ -1247,8 +1247,7 @@ package http2
 //@ func (*Conn).addWindow
 //@ props C07
 //@ requires recv: c != nil
-//@ # RFC 7540 6.9.1: increments are at most 2^31-1; the sum is the peer's to keep in range
-//@ requires inc: inc >= 0
+//@ # (an increment is 31 bits wide on the wire; nothing here depends on it)
 //@ opt noframe=true
 //@ opt wrapsigned=true
 //@ modifies c.connWindow, family(pendingBody)
@@ -1607,7 +1606,7 @@ package http2
 //@ requires ptrs: enc != nil && hpackOK(enc) && hf != nil && h != nil
 
 //@ func (*Conn).writeRequest
-//@ props C02 C18
+//@ props C02 C18 C11
 //@ requires recv: c != nil && ctx != nil && ctx.Request != nil && c.bw != nil && c.enc != nil && hpackOK(c.enc)
 //@ opt noframe=true
 //@ opt noovf=true
@@ -1623,3 +1622,31 @@ package http2
 //@ # the stream counts as open only once its HEADERS frame has been written
 //@ ensures counted: c.openStreams == old(c.openStreams) || c.openStreams == old(c.openStreams) + 1
 //@ ensures refused: old(c.openStreams) >= old(c.maxStreams) ==> r0 != nil && c.openStreams == old(c.openStreams) && c.nextID == old(c.nextID)
+
+// ---- client: frames for the connection itself ----
+
+//@ func (*Conn).handlePing
+//@ props C11
+//@ requires args: c != nil && ping != nil
+//@ opt noframe=true
+//@ modifies anybytes()
+
+//@ func (*Conn).readNext
+//@ props C11 C16
+//@ requires recv: c != nil && c.br != nil && c.c != nil
+//@ opt noframe=true
+//@ opt noovf=true
+//@ modifies c.serverS, capacity(c.serverS.rawSettings), c.maxStreams, c.maxFrameSize, c.encTableSize, c.streamWindow, c.connWindow, family(pendingBody),
+//@ |   c.goAway, c.closeRef, c.state, c.unacks, anybytes(), family(FrameHeader),
+//@ |   family(Data), family(Headers), family(Priority), family(RstStream), family(Settings), family(PushPromise), family(Ping), family(GoAway), family(WindowUpdate), family(Continuation)
+//@ loop 0: invariant ptrs: c != nil && c.br != nil && c.c != nil
+//@ loop 0: invariant mono: old(c.goAway) != 0 ==> c.goAway != 0
+//@ # the loop only goes round after a frame that was dealt with here; every failure leaves it at once
+//@ loop 0: invariant noerr: err == nil
+//@ # a GOAWAY ends the call, and from then on the connection is marked: no stream is opened on it any more (writeRequest: limit)
+//@ ensures marked: r0 != nil && r0.kind == FrameGoAway && r0.stream == 0 ==> c.goAway == 1
+//@ # a GOAWAY that lets streams finish says up to which one
+//@ ensures upto: r1 == nil && r0 != nil && r0.kind == FrameGoAway && r0.stream == 0 ==> c.state == 1 && c.closeRef == as(r0.fr, *GoAway).stream && c.closeRef != 0
+//@ # what is handed on is a frame for a stream, or the GOAWAY
+//@ ensures stream: r1 == nil ==> r0 != nil && r0.fr != nil && (r0.stream != 0 || r0.kind == FrameGoAway)
+//@ ensures sticky: old(c.goAway) != 0 ==> c.goAway != 0
